@@ -474,18 +474,5 @@ pub(crate) fn c18_k4_contract_reload_id_update() {
     let mut x = ReloadId(kani::any());
     let _ = x.update(ReloadId(kani::any()));
 }
-/// a caller checked against the callee's CONTRACT, not its body: ReloadWatcher::reloaded with ReloadId::update replaced
-/// by its verified contract
-#[cfg(all(kani, feature = "hot-reloading"))]
-#[kani::proof]
-#[kani::stub_verified(ReloadId::update)]
-pub(crate) fn c06_k3c_watcher_against_update_contract() {
-    let (c0, c1): (usize, usize) = (kani::any(), kani::any());
-    let id = AtomicReloadId::with_value(ReloadId(c0));
-    let mut w = ReloadWatcher::new(Some(&id));
-    id.store(ReloadId(c1));
-    let r = w.reloaded();
-    assert!(r == (c1 > c0), "C06 reloaded() is true iff the counter advanced since the last poll (against update's contract)");
-    let r2 = w.reloaded();
-    assert!(!r2, "C06 and then false until the next reload");
-}
+// NOTE: a caller harness with `#[kani::stub_verified(ReloadId::update)]` (ReloadWatcher::reloaded against update's contract)
+// makes Kani 0.68 panic in reachability.rs:425 (internal compiler error), so the contract is proved but not used modularly.
